@@ -191,6 +191,12 @@ SCEN(l_ins_rem, P_leaf, INS, 0x0102030405060709ULL, REM, 0x0102030405060708ULL) 
 SCEN(p_get_split, P_two, GET, 0x20, INS, 0x0100000000000000ULL)
 SCEN(p_rem_split, P_two, REM, 0x10, INS, 0x0000000000010000ULL)
 SCEN(p_get_rem_sib, P_two, GET, 0x20, REM, 0x10)
+// key-prefix split of an inner node BELOW the root (cut in place, the node stays live) while another operation is between reading the parent's child
+// pointer and locking that node; the keys are self-similar (zero bytes) so that the shortened prefix still matches at the stale depth (seed C03c)
+static const std::uint64_t P_pfx[] = {0x0200000000000000ULL, 0x0100000000001000ULL, 0x0100000000002000ULL};   // root {01 -> C (prefix 00 00 00 00 00) {10, 20}, 02 -> leaf}
+SCEN(p_ins_split_child, P_pfx, INS, 0x0100000000003000ULL, INS, 0x0100000700003000ULL)
+SCEN(p_get_split_child, P_pfx, GET, 0x0100000000002000ULL, INS, 0x0100000700003000ULL)
+SCEN(p_rem_split_child, P_pfx, REM, 0x0100000000001000ULL, INS, 0x0100000700003000ULL)
 // a full inner node under a full non-root parent: both grow
 SCEN(n_ins4_ins400, P_nested, INS, 4, INS, 0x400)
 SCEN(n_get2_ins400, P_nested, GET, 2, INS, 0x400)
